@@ -277,10 +277,27 @@ func stageLayering(c *an.Ctx, rule string) {
 		c.Und(rule, an.Short(f)+":Run", f.Pos(), "no Runner.Run call")
 		return
 	}
-	// resolve through `stage.Task = &copy`
+	// resolve through `stage.Task = &copy` and through a helper that builds the copy
 	target := runArg
 	if fwd, ok := an.ForwardLoad(an.Resolve(runArg)); ok {
 		target = fwd[0]
+	}
+	builder := f
+	var alloc *ssa.Alloc
+	for _, src := range c.P.DeepSources(target, 3, false) {
+		if a, ok := src.(*ssa.Alloc); ok && an.TypeIs(a.Type(), "pkg/task", "Task") {
+			alloc = a
+		}
+	}
+	if alloc != nil {
+		target = alloc
+		builder = alloc.Parent()
+		// the stage as the builder sees it
+		for _, prm := range builder.Params {
+			if an.TypeIs(prm.Type(), "pkg/scheduler", "Stage") {
+				stage = prm
+			}
+		}
 	}
 	fresh, copied := an.FreshBase(target)
 	copyOfTask := false
@@ -300,9 +317,12 @@ func stageLayering(c *an.Ctx, rule string) {
 	if !c.Check(fresh && copied && copyOfTask, rule, an.Short(f)+":runs-copy", f.Pos(), "Runner.Run receives a per-stage value copy of stage.Task", "Runner.Run does not receive a per-stage copy of the stage's task ("+an.Prov(target)+")") {
 		return
 	}
+	f = builder
+	cfg.ParamDepth = 2
 	want := map[string][][]string{
-		"Env":       {{"Stage.Env"}, {"Task.Env", "Stage.Env"}},
-		"Variables": {{"Stage.Variables"}, {"Task.Variables", "Stage.Variables"}},
+		// (the task's layer alone = "the stage overrides nothing")
+		"Env":       {{"Stage.Env"}, {"Task.Env", "Stage.Env"}, {"Task.Env"}},
+		"Variables": {{"Stage.Variables"}, {"Task.Variables", "Stage.Variables"}, {"Task.Variables"}},
 	}
 	for _, field := range []string{"Env", "Variables"} {
 		sts := an.StoresToField(f, target, field)
